@@ -2,6 +2,7 @@
 pool) in one process, dumping the hidden process state after every action."""
 
 import copy
+import json
 import math
 import os
 
@@ -90,6 +91,9 @@ def _tl(x):
     return None if x is None else [float(v) for v in x.detach().reshape(-1)]
 
 
+_DRIVERS = {}
+
+
 def run_job(name, dicts, workdir, pending):
     """Executes one forward job. Returns dict of outputs (lists of floats)."""
     j = JOBS[name]
@@ -110,11 +114,18 @@ def run_job(name, dicts, workdir, pending):
         MDmod.Molecular_Dynamics_Basic.run_from_checkpoint(out["prefix"] + ".restart.pt")
         return res
     if j.get("out") == "gap":
-        o = basics.Energy(p)(mol, all_terms=True)
+        ekey = ("E", d, tuple(p.get("elements") or ()), json.dumps(j.get("set", {}), sort_keys=True))
+        if os.environ.get("VERIF_SESSION_FRESH_DRIVERS") == "1" or _DRIVERS.get("E" + d, (None, None))[0] != ekey:
+            _DRIVERS["E" + d] = (ekey, basics.Energy(p))
+        o = _DRIVERS["E" + d][1](mol, all_terms=True)
         res = {"Etot": _tl(o[1]), "gap": _tl(o[6])}
         pending[name] = (mol, o[6].sum())
         return res
-    es = Electronic_Structure(p)
+    # one driver per settings dict, re-used as long as the dict's element list did not change (as a user script would)
+    key = (d, tuple(p.get("elements") or ()))
+    if os.environ.get("VERIF_SESSION_FRESH_DRIVERS") == "1" or _DRIVERS.get(d, (None, None))[0] != key:
+        _DRIVERS[d] = (key, Electronic_Structure(p))
+    es = _DRIVERS[d][1]
     es(mol)
     res = {"Etot": _tl(mol.Etot), "force": _tl(mol.force), "q": _tl(mol.q), "gap": _tl(mol.e_gap)}
     if mol.cis_energies is not None:
